@@ -1140,6 +1140,14 @@ func (l *Ledger) Truncate(utxovmLastID []byte) error {
 		}
 	}
 
+	// the target becomes the tip: it no longer has a next block on the trunk
+	block.NextHash = []byte{}
+	err = l.saveBlock(block, batchWrite)
+	if err != nil {
+		l.xlog.Warn("truncate failed when saving the new tip block", "err", err)
+		return err
+	}
+
 	newMeta.TrunkHeight = block.Height
 	metaBuf, err := proto.Marshal(newMeta)
 	if err != nil {
